@@ -495,7 +495,16 @@ def annotate(
                 )
             path = Path(new_path)
             created_license_file = not path.exists()
-            path.touch()
+            try:
+                path.touch()
+            except OSError as error:
+                click.echo(
+                    _("Error: Could not write '{path}': {error}").format(
+                        path=path, error=error
+                    )
+                )
+                result += 1
+                continue
         file_result = add_header_to_file(
             path=path,
             reuse_info=reuse_info,
